@@ -78,7 +78,8 @@ func (s bitmap32) Remove(value uint32) {
 func (s bitmap32) Xor(provider Provider[uint32]) {
 	switch typedProvider := provider.(type) {
 	case bitmap32:
-		s.bitmap.Xor(typedProvider.bitmap)
+		// The in-place Xor of the underlying library may modify or alias containers of its operand
+		s.bitmap.Xor(typedProvider.bitmap.Clone())
 
 	case Duplex[uint32]:
 		providerCopy := roaring.New()
